@@ -81,7 +81,7 @@ def c13_extra(ROOT, tier, seed, sh, WORK):
     from concurrent.futures import ThreadPoolExecutor
     out = {'violations': []}
     count = 40 if tier == 'quick' else 500
-    files = _gen_traces(ROOT, WORK, 'c13', seed, sh, ['mixed', 'rel', 'cache', 'batch'], count)
+    files = _gen_traces(ROOT, WORK, 'c13', seed, sh, ['mixed', 'rel', 'cache', 'batch', 'reset', 'handles'], count)
     env = dict(os.environ, GOGC='1')
     H = os.path.join(ROOT, 'harness', 'harness')
 
